@@ -76,6 +76,24 @@ def discharge(obligations, use_cvc5=True):
     return results
 
 
+def rerun_with_seeds(obligations, results, seeds=(1, 2)):
+    """thorough tier: repeat every decided query with other random seeds -> names whose verdict changes (sat <-> unsat would be
+    a solver bug; unsat -> unknown shows a proof that depends on luck)"""
+    flips = []
+    with tempfile.TemporaryDirectory(prefix='pyvc_') as wd:
+        for seed in seeds:
+            jobs, idxs = [], []
+            for i, (o, r) in enumerate(zip(obligations, results)):
+                if o.kind == 'canary' or r['solver'] == 'simplifier' or r['result'] not in ('sat', 'unsat'): continue
+                text = f'(set-option :smt.random_seed {seed})\n(set-option :sat.random_seed {seed})\n' + to_smt2(o.hyps, o.goal)
+                jobs.append((i, text, wd, False, Z3_TIMEOUT_S)); idxs.append(i)
+            with cf.ThreadPoolExecutor(max_workers=WORKERS) as pool:
+                for idx, res, solver, ms, out in pool.map(solve_one, jobs):
+                    if res != results[idx]['result'] and not (results[idx]['solver'].startswith('cvc5')):
+                        flips.append(f"{obligations[idx].name}: {results[idx]['result']} -> {res} (seed {seed})")
+    return sorted(set(flips))
+
+
 def model_for(ob, timeout_ms=20000, weaken=False):
     """re-solve in process to obtain a model object (only for refuted obligations)"""
     s = z3.Solver(); s.set('timeout', timeout_ms)
